@@ -1,4 +1,5 @@
 import PysnarkModel.Lemmas.Sound
+import PysnarkModel.Lemmas.SoundRun
 /-!
 # C02 — soundness: the emitted constraints determine every result uniquely from its operands
 
@@ -148,5 +149,117 @@ example : (match ltLL ⟨3, [(.priv 0, 1)]⟩ ⟨5, [(.priv 1, 1)]⟩ ({ St.init
     | .ok (r, s') => r.value == 1 && s'.cons.length == 6
     | .error _ => false) = true ∧ (2 : ℕ) ^ (4 + 1) ≤ 97 := by
   refine ⟨by decide +kernel, by decide⟩
+
+/-! ## program level: the constraints of a whole run determine every register
+
+`SoundFragment s0 prog` (`Spec/SoundProg.lean`, decidable): no executed instruction of the run is
+excluded by the table `Instr.excl`.  Excluded, with the reason (`Excl`):
+* `guardRegion` — `guarded` regions (soundness under a guard: not yet composed, C07);
+* `ignoreErrors` — `set ign` (the property is about runs with error checking on);
+* `secretLiteral` — a literal containing a `LinComb` (not an API value);
+* `divmodQuotient` — `//`, `%`, `divmod` (UNSOUND, finding C02-divmod-quotient);
+* `fxpRescale` — fixed-point `*` by a float/fixed-point, every fixed-point `/`, fixed-point `**n`
+  for `n ≥ 2` (they rescale through `//`: same finding);
+* `secretShift` — `x >> secret` (is `x // 2**secret`: same finding);
+* `bitwiseConst` — `&`, `|`, `^` between a `LinComb` and a public int (UNSOUND, finding
+  C02-bitwise-const);
+* `zeroDivisorModP` — `a / b` for a secret `b` whose integer value is a NONZERO MULTIPLE of `p`
+  (UNSOUND, finding C02-truediv-zero-mod-p, counterexample below);
+* `widthTooLarge` — an explicit width `n` (`to_bits(n)`, `check_positive(n)`, `set bitlength n`)
+  with `2^(n+1) > p`.
+Everything else is inside: `+ - * /` (exact division by a public int or by a secret), `**` by a
+public int or a secret, `<<`, `>>` by a public int, `& | ^` on secrets and booleans, all six
+comparisons in every operand-kind combination, `abs`, `~`, unary minus, selection (also on lists),
+`check_*`, `to_bits`, `from_bits`, `val`, every assertion method, the constructors, boolean /
+fixed-point wrapping, lists, indexing, arrays with plain and secret indices, `set bitlength/resolution`.
+
+`inputWires s0 prog`: the wires allocated directly by the constructor instructions (`PrivVal(v)`,
+`PubVal(v)`, `PrivValBool(v)`, …).  EVERY other wire (all auxiliary wires of all gadgets, also those
+that are NOT determined, e.g. the inverse witness of a zero test on 0) belongs to the prover. -/
+
+/-- **C02, program level.**  For every prime `p`, bit length with `2^(bl+1) ≤ p`, every program
+whose run from the initial state completes and stays in the fragment, and EVERY assignment `w'`
+(to all wires) that has the constant wire at 1, agrees modulo `p` with the recorded assignment on
+the input wires, and satisfies every emitted constraint modulo `p`: every secret in every register
+(also inside lists) evaluates under `w'` to the same field element as under the recorded assignment
+(`DetV`), namely to its Python-level value (`ValV`); secrets typed boolean evaluate to 0 or 1.
+The witness-dependent auxiliary wires cannot change any result. -/
+theorem C02_determined (p : ℕ) [Fact p.Prime] (bl res : ℕ) (hbl : 2 ^ (bl + 1) ≤ p)
+    (prog : List Instr) (hfrag : SoundFragment (St.init p bl res) prog)
+    (out : Out) (hout : run (St.init p bl res) prog = out) (herr : out.err = none)
+    (w' : Wire → Int) (h1 : w' .one = 1)
+    (hin : ∀ k ∈ inputWires (St.init p bl res) prog, EqMod (p : Int) (w' k) (out.st.assign k))
+    (hsat : ∀ c ∈ out.st.cons, Sat (p : Int) w' c) :
+    ∀ v ∈ out.regs, DetV (p : Int) w' out.st.assign v ∧ ValV (p : Int) w' v := by
+  obtain ⟨-, hpF, hregs⟩ := run_determined p bl res hbl prog hfrag out hout herr w' h1 hin hsat
+  intro v hv
+  exact ⟨DetV_of_DV (W := ⟨p, w', out.st⟩) v (hregs v hv),
+    ValV_of_DV (W := ⟨p, w', out.st⟩) hpF v (hregs v hv)⟩
+
+/-! ### finding C02-truediv-zero-mod-p (new): why `zeroDivisorModP` is excluded
+
+`a / b` for a secret `b` checks `b.value != 0` on the Python integer and emits `b·r = a`.  When
+the integer `b.value` is a nonzero multiple of `p` (e.g. `PrivVal(p-1) + 1`) the check passes, `b`
+is 0 in the field, and for `a ≡ 0` the quotient wire `r` is free.  Instance over `p = 97`:
+`PrivVal(0) / (PrivVal(96) + 1)`; honest quotient 0, and the single emitted constraint is also
+satisfied with quotient 5 (inputs unchanged). -/
+def c02DivProg : List Instr :=
+  [.lit (.int 0), .lit (.int 96), .mk .priv 0, .mk .priv 1, .lit (.int 1), .bin .add 3 4, .bin .truediv 2 5]
+
+/-- closed counterexample, by kernel evaluation of the model: the run completes; the fragment test
+rejects exactly instruction 6 with reason `zeroDivisorModP`; the input wires are the two `PrivVal`s;
+the recorded private assignment is `[0, 96, 0]`; both it and `[0, 96, 5]` satisfy every emitted
+constraint modulo 97 and agree on the input wires; the result register evaluates to 0 resp. 5 -/
+theorem C02_cex_truediv_zero_mod_p :
+    (let out := run (St.init 97 4 8) c02DivProg
+     out.err.isNone && (firstExcl c02DivProg 0 [] [] (St.init 97 4 8) == some (6, Excl.zeroDivisorModP)) &&
+     (inputWires (St.init 97 4 8) c02DivProg == [Wire.priv 0, Wire.priv 1]) &&
+     (out.st.pub == []) && (out.st.priv == [0, 96, 0]) && (out.st.cons.length == 1) &&
+     out.st.cons.all (satB 97 (ofList [0, 96, 0])) && out.st.cons.all (satB 97 (ofList [0, 96, 5])) &&
+     (match (out.regs[6]? : Option Val) with
+      | some (Val.lc x) => (LC.eval (ofList [0, 96, 0]) x.lc % 97 == 0) && (LC.eval (ofList [0, 96, 5]) x.lc % 97 == 5)
+      | _ => false)) = true := by
+  first | decide +kernel | fail "C02_cex_truediv_zero_mod_p: kernel evaluation failed"
+
+/-! ### non-vacuity of `C02_determined`: a 14-instruction program of the fragment (two inputs, a
+product, two comparisons, a selection, an exact division by a secret, an equality test, a boolean
+AND, two assertions), run over `p = 97` at bit length 4 -/
+def c02Prog : List Instr :=
+  [.lit (.int 6), .lit (.int 3), .mk .priv 0, .mk .priv 1,   -- a = PrivVal(6), b = PrivVal(3)
+   .bin .mul 2 3,                                            -- a * b
+   .bin .lt 3 2, .bin .ge 2 3,                               -- b < a, a >= b
+   .ite 5 2 3,                                               -- if_then_else(b < a, a, b)
+   .bin .truediv 2 3,                                        -- a / b
+   .call .assertLt 3 [2],                                    -- b.assert_lt(a)
+   .lit (.int 2), .bin .eq 8 10,                             -- a / b == 2
+   .bin .band 5 6,                                           -- (b < a) & (a >= b)
+   .call .assertEq 8 [10]]                                   -- (a / b).assert_eq(2)
+
+/-- the hypotheses of `C02_determined` are met: the size condition holds, the run completes inside
+the fragment, it has two input wires, 24 constraints, and the recorded assignment is one
+assignment `w'` satisfying them (so the theorem applies to every other one) -/
+example :
+    (2 : ℕ) ^ (4 + 1) ≤ 97 ∧ SoundFragment (St.init 97 4 8) c02Prog ∧
+    (let out := run (St.init 97 4 8) c02Prog
+     out.err.isNone && (out.regs.length == 14) &&
+     (inputWires (St.init 97 4 8) c02Prog == [Wire.priv 0, Wire.priv 1]) &&
+     (out.st.cons.length == 24) && out.st.cons.all (satB 97 out.st.assign)) = true := by
+  refine ⟨by decide, ?_, ?_⟩
+  · first | decide +kernel | fail "c02Prog is not in the fragment"
+  · first | decide +kernel | fail "c02Prog: run check failed"
+
+/-- the quantifier is not vacuous beyond the recorded witness: the assignment that differs from the
+recorded one on private wire 20 (the inverse witness of the zero test in `a / b == 2`, free because
+the tested difference is 0) has the constant wire at 1, agrees on the two input wires and satisfies
+all 24 constraints — `C02_determined` applies to it (and says the registers are unaffected) -/
+example :
+    (let out := run (St.init 97 4 8) c02Prog
+     let w' := ofList [6, 3, 18, 1, 0, 1, 0, 0, 1, 1, 1, 0, 0, 3, 2, 0, 1, 0, 0, 1, 77, 1]
+     (out.st.priv == [6, 3, 18, 1, 0, 1, 0, 0, 1, 1, 1, 0, 0, 3, 2, 0, 1, 0, 0, 1, 1, 1]) &&
+     (w' Wire.one == 1) && (w' (Wire.priv 0) == out.st.assign (Wire.priv 0)) &&
+     (w' (Wire.priv 1) == out.st.assign (Wire.priv 1)) &&
+     ((w' (Wire.priv 20) - out.st.assign (Wire.priv 20)) % 97 != 0) &&
+     out.st.cons.all (satB 97 w')) = true := by
+  first | decide +kernel | fail "c02Prog: alternative assignment check failed"
 
 end Pysnark
